@@ -309,6 +309,44 @@ class Ctx:
             raise Unresolved("deviation config %s/%s found no counterexample: model insensitive" % (module, cfg))
         return res
 
+    def generate_behaviours(self, module, cfg, num, depth, var="script", timeout=600, seed_shift=0):
+        """Leg R, first half: TLC (-simulate) chooses `num` behaviours of spec/<module>.tla (a *Gen module whose
+        actions append one word per step to the variable `var`) of at most `depth` steps; returns the list of scripts
+        (lists of words, in step order) read from the last state of every generated behaviour.  The seed of the
+        simulation is derived from VERIF_SEED, so a run is reproducible."""
+        with _mdir_lock:
+            self._mdir += 1
+            outdir = os.path.join(self.scratch, "gen%d" % self._mdir)
+        os.makedirs(outdir)
+        res = self.tlc(module, cfg, workers=1, timeout=timeout, depth=depth,
+                       simulate="file=%s/b,num=%d" % (outdir, num),
+                       extra=["-seed", str(1000 * int(self.seed) + 17 + seed_shift)])
+        if res.kind != "ok":
+            print(res.out[-3000:])
+            raise Unresolved("TLC %s generating behaviours from %s/%s" % (res.kind, module, cfg))
+        scripts = []
+        pat = re.compile(r"/\\ %s = (<<.*?>>|<< >>)\s*(?=/\\|\Z|\n\n)" % re.escape(var), re.S)
+        for f in sorted(os.listdir(outdir)):
+            txt = open(os.path.join(outdir, f)).read()
+            last = None
+            for last in pat.finditer(txt):
+                pass
+            if last is None:
+                continue
+            words = re.findall(r'"([^"]*)"', last.group(1))
+            if words:
+                scripts.append(words)
+        shutil.rmtree(outdir, ignore_errors=True)
+        if not scripts:
+            raise Unresolved("no behaviour generated from %s/%s" % (module, cfg))
+        distinct = len(set(tuple(x) for x in scripts))
+        self.legs.append({"leg": "R-generate", "module": module, "cfg": cfg, "behaviours": len(scripts),
+                          "distinct_behaviours": distinct, "steps": sum(len(x) for x in scripts),
+                          "distinct_step_words": len(set(w for x in scripts for w in x))})
+        self.log("generated %d behaviours (%d distinct, %d steps) from %s/%s" % (
+            len(scripts), distinct, sum(len(x) for x in scripts), module, cfg))
+        return scripts
+
     def validate_trace(self, module, cfg, trace_path, label="", timeout=900, dfs=True, count_traces=None):
         """Leg T. Returns (accepted, info). info has line (first line that cannot be consumed) or
         violated invariant + line."""
